@@ -15,9 +15,14 @@ META = {
                    "with QR(m x c) -> Q: m x min(m, c), R: min(m, c) x c. `Rt.shape[1] - r` and `kick` discharge it identically; "
                    "`Q.shape[1] - r` normalises to min(m, c) - r, which is smaller than kick whenever m < r + kick (mode sizes smaller "
                    "than rank + kick): a definite shape error. Plus: the start tensor is copied (effect analysis), name resolution. "
-                   "Recovery accuracy, maxvol quality and seed independence are NOT decided.",
-    "assumptions": ["index provenance of the sampled indices (X2) is not decided in this version"],
-    "floors": {"X1-ENRICH": 4, "E3-PARAM": 2},
+                   "X2 (index provenance, value-range analysis of the integer index arrays): the index store Idx keeps Left(j) = rank[j] x j "
+                   "(column i in [0, N[i])) and Right(j) = (d-j) x rank[j] (row i in [0, N[j+i])); every store extends the proper set at the proper "
+                   "position, every selection from it is bounded by its rank, every np.unravel_index is applied to flat indices bounded by the "
+                   "product of its shape (the rows of the matrix maxvol searched), the matrix handed to the user's function is "
+                   "(Left(k) | [0,N[k]) | [0,N[k+1]) | Right(k+2)^T) = d aligned columns, and function_interpolate gathers core i of every argument "
+                   "tensor with column i along its mode axis. Recovery accuracy, maxvol quality and seed independence are NOT decided.",
+    "assumptions": ["QR/SVD are modelled by their shape laws for tall arguments (the wide case is X1); the start cores are orthogonalised, so min(N[k]*rank[k+1], rank[k]) = rank[k]", "interface matrices Ps[j] are square of size rank[j]"],
+    "floors": {"X1-ENRICH": 4, "E3-PARAM": 2, "X2-CALL": 2, "X2-GATHER": 8, "X2-UNRAVEL": 6, "X2-SELECT": 14, "X2-STORE": 6},
 }
 ANCHORS = ["interpolate.dmrg_cross", "interpolate.function_interpolate", "interpolate._maxvol"]
 
@@ -74,4 +79,7 @@ def check(model: Model, tier: str):
         obs.append(Ob("E3-PARAM", f"{fn}:E3-PARAM:{p}", VIOLATED if effs else OK, effs[0].where if effs else model.where(fo), p,
                       f"`{p}` is written: {effs[0].construct}" if effs else "argument tensors are not written"))
     obs += rules.rule_unres(model, [model.func(a) for a in ANCHORS])
+    from ..ranges import check_function
+    for fn in ("interpolate.dmrg_cross", "interpolate.function_interpolate"):
+        obs += check_function(model, fn)
     return obs, {"functions": ANCHORS}
